@@ -150,7 +150,8 @@ Section BorisProofs.
     split; [intros j Hj; apply Sf; lia|].
     intros m Hm. destruct (Sn m ltac:(lia)) as [Ep [Ef Ev]].
     split; [exact Ef|]. split; [exact Ev|]. intros x.
-    rewrite Ep at 1. unfold vadd at 1 2. rewrite accum_spec, gpos_spec. unfold vscale.
+    pose proof (f_equal (fun g => g x) Ep) as Ex. cbv beta in Ex. rewrite Ex. clear Ex.
+    unfold vadd at 1 2. rewrite accum_spec, gpos_spec. unfold vscale.
     rewrite (sumf_ext kO kadd (fun j => dt *! (dt *! Sx m j) *! Fof (fst (fst r)) (snd (fst r)) (snd r) j x)
                (fun j => (dt *! dt) *! (Sx m j *! Fof (fst (fst r)) (snd (fst r)) (snd r) j x)) 0 m) by (intros; ring).
     rewrite sumf_scal. ring.
@@ -190,7 +191,9 @@ Section BorisProofs.
     intros Hc Hb Ha Hok. destruct (boris_position_form p v f tau Hok) as [r [Er H]].
     exists r. split; [exact Er|]. cbv zeta in H |- *. destruct H as [Hf Hn]. split; [exact Hf|].
     intros m Hm. destruct (Hn m Hm) as [Ef [Ev Hp]]. split; [exact Ef|]. intros x. split; [apply Hp|].
-    rewrite Ev at 1. rewrite Hc, <- Ev. rewrite gvel_spec. unfold bforce. rewrite !Hb.
+    pose proof (Hc (gvel p v f tau m) (dt *! QId m) (snd r (m - 1)) (snd r m) (fst (fst r) (m - 1)) (snd (fst r) (m - 1))
+                   (attr (m - 1)) x) as C.
+    rewrite <- Ev in C. rewrite C. rewrite gvel_spec. unfold bforce. rewrite !Hb.
     rewrite (Ha (m - 1)), (Ha m). ring.
   Qed.
 
@@ -235,6 +238,8 @@ Section BorisProofs.
     { rewrite accum_spec. unfold vscale.
       rewrite (sumf_ext kO kadd (fun m => dt *! weights m *! Fof p v f m x) (fun m => dt *! (weights m *! Fof p v f m x)) 1 M) by (intros; ring).
       rewrite sumf_scal. reflexivity. }
+    remember (accum kadd (p 0) 1 M (fun m => vadd kadd (vscale kmul (dt *! (dt *! qQ m)) (Fof p v f m)) (vscale kmul (dt *! weights m) (v 0)))) as EP.
+    remember (accum kadd (v 0) 1 M (fun m => vscale kmul (dt *! weights m) (Fof p v f m))) as EV.
     destruct (tau M) as [t|]; cbn [fst snd]; unfold vadd; rewrite Gp, Gv; split; ring.
   Qed.
 
@@ -248,4 +253,286 @@ Section BorisProofs.
     intros r. unfold r, boris_residual, tauV. destruct (boris_integrate_form p v f m x) as [Ip Iv].
     destruct (tau m) as [t|]; cbn [fst snd]; unfold vadd, vsub; rewrite Ip, Iv; split; ring.
   Qed.
+
+  (* ---------------------------------------------------------------- 0-to-node (matrix) form *)
+  (* With the tables as boris_2nd_order.__get_Qd builds them for QI = IE, QE = EE
+       Sx, ST, S, SQ = row differences of Qx, QT, Q, QQ   (SQ = S Q and QQ = Q Q give the last one),
+       Qx strictly lower triangular, QT lower triangular, first rows zero,
+       ST rows = the trapezoidal rule  dt QI[m,m]/2 (F_{m-1} + F_m)  hard-wired in the velocity update,
+       delta = node distances,
+     and tau present on all nodes or on none, the node-to-node equations add up to the second-order analogue of
+     (I - dt QD F) U_new = u0 + dt (Q - QD) F U_old + tau:
+       x_m - dt^2 sum_{j<m}  Qx[m,j] F_j^new = x_0 + dt t_m v_0 + dt^2 sum_j (QQ - Qx)[m,j] F_j^old + tau_m
+       v_m - dt   sum_{j<=m} QT[m,j] F_j^new = v_0             + dt   sum_j (Q  - QT)[m,j] F_j^old + tau_m
+     (the table hypotheses are checked on the real tables by the harness on every run). *)
+  Section ZeroToNode.
+    Variable Qx QT : nat -> nat -> K.
+    Hypothesis HSx : forall m j, 1 <= m <= M -> Sx m j = Qx m j -! Qx (m - 1) j.
+    Hypothesis HSQ : forall m j, 1 <= m <= M -> SQ m j = QQ m j -! QQ (m - 1) j.
+    Hypothesis HSm : forall m j, 1 <= m <= M -> Sm m j = Q m j -! Q (m - 1) j.
+    Hypothesis HST : forall m j, 1 <= m <= M -> ST m j = QT m j -! QT (m - 1) j.
+    Hypothesis Hrow0 : forall j, Qx 0 j = kO /\ QQ 0 j = kO /\ Q 0 j = kO /\ QT 0 j = kO.
+    Hypothesis HQxlow : forall m j, m <= j -> Qx m j = kO.
+    Hypothesis HQTlow : forall m j, m < j -> QT m j = kO.
+    Hypothesis Htrap : forall m, 1 <= m <= M ->
+      ST m (m - 1) = QId m *! khalf /\ ST m m = QId m *! khalf /\ forall j, j + 1 < m -> ST m j = kO.
+    Hypothesis Hdelta : forall m, 1 <= m <= M -> delta m = nodes m -! nodes (m - 1).
+    Hypothesis Hnodes0 : nodes 0 = kO.
+
+    Definition tau_full (tau : nat -> option (V * V)) : Prop :=
+      (forall m, 1 <= m <= M -> tau m <> None) \/ (forall m, 1 <= m <= M -> tau m = None).
+
+    Lemma tau_full_ok tau : tau_full tau -> tau_ok M tau = true.
+    Proof.
+      intros Hf. unfold tau_ok. apply forallb_forall. intros m Hm. apply in_seq in Hm.
+      destruct Hf as [Hs|Hn].
+      - pose proof (Hs (m - 1) ltac:(lia)) as H1. destruct (tau m); [|reflexivity].
+        destruct (tau (m - 1)); [reflexivity|congruence].
+      - rewrite (Hn m ltac:(lia)). reflexivity.
+    Qed.
+
+    Let T (sel : V * V -> V) (tau : nat -> option (V * V)) (m : nat) (x : X) : K :=
+      if Nat.eqb m 0 then kO else tauV sel tau m x.
+
+    Lemma tau_telescope sel tau m x : tau_full tau -> S m <= M ->
+      T sel tau m x +! tauN sel tau (S m) x = T sel tau (S m) x.
+    Proof.
+      intros Hf Hm. unfold T, tauN, tauV. cbn [Nat.eqb].
+      destruct Hf as [Hs|Hn].
+      - destruct m as [|m].
+        + cbn [Nat.eqb Nat.leb]. pose proof (Hs 1 ltac:(lia)) as H1. destruct (tau 1); [ring|congruence].
+        + cbn [Nat.eqb Nat.leb]. replace (S (S m) - 1) with (S m) by lia.
+          pose proof (Hs (S m) ltac:(lia)) as H1. pose proof (Hs (S (S m)) ltac:(lia)) as H2. destruct (tau (S (S m))) as [t|]; destruct (tau (S m)) as [t'|]; try congruence; ring.
+      - rewrite (Hn (S m) ltac:(lia)). destruct m as [|m]; cbn [Nat.eqb]; [ring|].
+        rewrite (Hn (S m) ltac:(lia)). ring.
+    Qed.
+
+    Theorem boris_matrix_form (p v : nat -> V) (f : nat -> Fld) tau :
+      boris_contract -> build_f_is G -> (forall j, attr j = attr 0) -> tau_full tau ->
+      exists r, bupdate p v f tau = Some r /\
+      let pn := fst (fst r) in let vn := snd (fst r) in let fn := snd r in
+      (forall j, j = 0 \/ M < j -> pn j = p j /\ vn j = v j /\ fn j = f j) /\
+      forall m, 1 <= m <= M ->
+        fn m = ef (tn m) (pn m) (v m) (attr m) /\
+        forall x,
+          pn m x -! dt *! dt *! sumf (fun j => Qx m j *! Fof pn vn fn j x) 0 m
+          = p 0 x +! dt *! nodes m *! v 0 x
+            +! dt *! dt *! sumf (fun j => (QQ m j -! Qx m j) *! Fof p v f j x) 0 (S M) +! tauV fst tau m x
+          /\
+          vn m x -! dt *! sumf (fun j => QT m j *! Fof pn vn fn j x) 0 (S m)
+          = v 0 x +! dt *! sumf (fun j => (Q m j -! QT m j) *! Fof p v f j x) 0 (S M) +! tauV snd tau m x.
+    Proof.
+      intros Hc Hb Ha Hfull.
+      destruct (boris_block_form p v f tau Hc Hb Ha (tau_full_ok tau Hfull)) as [r [Er H]].
+      exists r. split; [exact Er|]. cbv zeta in H |- *. destruct H as [Hf Hn]. split; [exact Hf|].
+      set (pn := fst (fst r)) in *. set (vn := snd (fst r)) in *. set (fn := snd r) in *.
+      assert (Main : forall m, m <= M -> forall x,
+        pn m x -! dt *! dt *! sumf (fun j => Qx m j *! Fof pn vn fn j x) 0 m
+        = p 0 x +! dt *! nodes m *! v 0 x
+          +! dt *! dt *! sumf (fun j => (QQ m j -! Qx m j) *! Fof p v f j x) 0 (S M) +! T fst tau m x
+        /\
+        vn m x -! dt *! sumf (fun j => QT m j *! Fof pn vn fn j x) 0 (S m)
+        = v 0 x +! dt *! sumf (fun j => (Q m j -! QT m j) *! Fof p v f j x) 0 (S M) +! T snd tau m x).
+      { induction m as [|m IH]; intros Hm x.
+        - destruct (Hf 0 (or_introl eq_refl)) as [E1 [E2 _]]. rewrite E1, E2. unfold T. cbn [Nat.eqb].
+          rewrite (sumf_ext kO kadd (fun j => (QQ 0 j -! Qx 0 j) *! Fof p v f j x) (fun _ => kO) 0 (S M)).
+          2:{ intros j _. destruct (Hrow0 j) as [A1 [A2 _]]. rewrite A1, A2. ring. }
+          rewrite (sumf_ext kO kadd (fun j => (Q 0 j -! QT 0 j) *! Fof p v f j x) (fun _ => kO) 0 (S M)).
+          2:{ intros j _. destruct (Hrow0 j) as [_ [_ [A3 A4]]]. rewrite A3, A4. ring. }
+          rewrite !(sumf_zero kO kI kadd kmul ksub kopp Rth), Hnodes0. cbn [SweepProofs.sumf].
+          destruct (Hrow0 0) as [_ [_ [_ A4]]]. rewrite A4. split; ring.
+        - destruct (IH ltac:(lia) x) as [IHp IHv]. destruct (Hn (S m) ltac:(lia)) as [_ Hx].
+          destruct (Hx x) as [Np Nv]. clear Hx. replace (S m - 1) with m in Np, Nv by lia.
+          split.
+          + (* positions *)
+            assert (E1 : sumf (fun j => Qx (S m) j *! Fof pn vn fn j x) 0 (S m)
+                         = sumf (fun j => Sx (S m) j *! Fof pn vn fn j x) 0 (S m)
+                           +! sumf (fun j => Qx m j *! Fof pn vn fn j x) 0 m).
+            { transitivity (sumf (fun j => Sx (S m) j *! Fof pn vn fn j x) 0 (S m)
+                            +! sumf (fun j => Qx m j *! Fof pn vn fn j x) 0 (S m)).
+              2:{ rewrite (sumf_snoc (fun j => Qx m j *! Fof pn vn fn j x) 0 m). cbn [Nat.add].
+                  rewrite (HQxlow m m (le_n m)). ring. }
+              rewrite <- sumf_add. apply sumf_ext. intros j _. rewrite (HSx (S m) j ltac:(lia)).
+              replace (S m - 1) with m by lia. ring. }
+            assert (E2 : sumf (fun j => (QQ (S m) j -! Qx (S m) j) *! Fof p v f j x) 0 (S M)
+                         = sumf (fun j => (SQ (S m) j -! Sx (S m) j) *! Fof p v f j x) 0 (S M)
+                           +! sumf (fun j => (QQ m j -! Qx m j) *! Fof p v f j x) 0 (S M)).
+            { rewrite <- sumf_add. apply sumf_ext. intros j _.
+              rewrite (HSx (S m) j ltac:(lia)), (HSQ (S m) j ltac:(lia)). replace (S m - 1) with m by lia. ring. }
+            rewrite E1, E2, <- (tau_telescope fst tau m x Hfull Hm).
+            pose proof (Hdelta (S m) ltac:(lia)) as Hd. replace (S m - 1) with m in Hd by lia.
+            assert (Hnod : nodes (S m) = nodes m +! delta (S m)) by (rewrite Hd; ring). rewrite Hnod.
+            set (A1 := sumf (fun j => Sx (S m) j *! Fof pn vn fn j x) 0 (S m)) in *.
+            set (A2 := sumf (fun j => Qx m j *! Fof pn vn fn j x) 0 m) in *.
+            set (B1 := sumf (fun j => (SQ (S m) j -! Sx (S m) j) *! Fof p v f j x) 0 (S M)) in *.
+            set (B2 := sumf (fun j => (QQ m j -! Qx m j) *! Fof p v f j x) 0 (S M)) in *.
+            transitivity ((pn (S m) x -! pn m x -! dt *! dt *! A1) +! (pn m x -! dt *! dt *! A2)); [ring|].
+            rewrite Np, IHp. ring.
+          + (* velocities *)
+            destruct (Htrap (S m) ltac:(lia)) as [T1 [T2 T3]]. replace (S m - 1) with m in T1 by lia.
+            assert (E1 : sumf (fun j => QT (S m) j *! Fof pn vn fn j x) 0 (S (S m))
+                         = sumf (fun j => QT m j *! Fof pn vn fn j x) 0 (S m)
+                           +! QId (S m) *! khalf *! (Fof pn vn fn m x +! Fof pn vn fn (S m) x)).
+            { transitivity (sumf (fun j => QT m j *! Fof pn vn fn j x) 0 (S (S m))
+                            +! sumf (fun j => ST (S m) j *! Fof pn vn fn j x) 0 (S (S m))).
+              { rewrite <- sumf_add. apply sumf_ext. intros j _. rewrite (HST (S m) j ltac:(lia)).
+                replace (S m - 1) with m by lia. ring. }
+              rewrite (sumf_snoc (fun j => QT m j *! Fof pn vn fn j x) 0 (S m)). cbn [Nat.add].
+              rewrite (HQTlow m (S m) ltac:(lia)).
+              rewrite (sumf_snoc (fun j => ST (S m) j *! Fof pn vn fn j x) 0 (S m)),
+                      (sumf_snoc (fun j => ST (S m) j *! Fof pn vn fn j x) 0 m). cbn [Nat.add].
+              rewrite (sumf_ext kO kadd (fun j => ST (S m) j *! Fof pn vn fn j x) (fun _ => kO) 0 m).
+              2:{ intros j Hj. rewrite (T3 j ltac:(lia)). ring. }
+              rewrite (sumf_zero kO kI kadd kmul ksub kopp Rth), T1, T2. ring. }
+            assert (E2 : sumf (fun j => (Q (S m) j -! QT (S m) j) *! Fof p v f j x) 0 (S M)
+                         = sumf (fun j => (Sm (S m) j -! ST (S m) j) *! Fof p v f j x) 0 (S M)
+                           +! sumf (fun j => (Q m j -! QT m j) *! Fof p v f j x) 0 (S M)).
+            { rewrite <- sumf_add. apply sumf_ext. intros j _.
+              rewrite (HSm (S m) j ltac:(lia)), (HST (S m) j ltac:(lia)). replace (S m - 1) with m by lia. ring. }
+            rewrite E1, E2, <- (tau_telescope snd tau m x Hfull Hm).
+            set (A2 := sumf (fun j => QT m j *! Fof pn vn fn j x) 0 (S m)) in *.
+            set (B1 := sumf (fun j => (Sm (S m) j -! ST (S m) j) *! Fof p v f j x) 0 (S M)) in *.
+            set (B2 := sumf (fun j => (Q m j -! QT m j) *! Fof p v f j x) 0 (S M)) in *.
+            transitivity ((vn (S m) x -! vn m x -! dt *! QId (S m) *! khalf *! (Fof pn vn fn m x +! Fof pn vn fn (S m) x))
+                          +! (vn m x -! dt *! A2)); [ring|].
+            rewrite Nv, IHv. ring. }
+      intros m Hm. destruct (Hn m Hm) as [Ef _]. split; [exact Ef|]. intros x.
+      destruct (Main m ltac:(lia) x) as [Mp Mv]. unfold T in Mp, Mv.
+      destruct (Nat.eqb_spec m 0) as [E0|_]; [lia|]. split; assumption.
+    Qed.
+  End ZeroToNode.
 End BorisProofs.
+
+(* ================================================================ the table hypotheses as one predicate *)
+Section BorisTables.
+  Context {K : Type} (kO kI : K) (kadd kmul ksub : K -> K -> K) (kopp : K -> K).
+  Hypothesis Rth : ring_theory kO kI kadd kmul ksub kopp (@eq K).
+  Context {X Fld A : Type}.
+  Local Infix "*!" := kmul (at level 40, left associativity).
+  Local Infix "-!" := ksub (at level 50, left associativity).
+
+  (* what boris_2nd_order.__get_Qd establishes for QI = IE, QE = EE (checked on the real tables on every run) *)
+  Definition boris_tables_ok (M : nat) (nodes delta : nat -> K) (Q QQ Sm ST SQ Sx : nat -> nat -> K) (QId : nat -> K)
+             (khalf : K) (Qx QT : nat -> nat -> K) : Prop :=
+    (forall m j, 1 <= m <= M -> Sx m j = Qx m j -! Qx (m - 1) j) /\
+    (forall m j, 1 <= m <= M -> SQ m j = QQ m j -! QQ (m - 1) j) /\
+    (forall m j, 1 <= m <= M -> Sm m j = Q m j -! Q (m - 1) j) /\
+    (forall m j, 1 <= m <= M -> ST m j = QT m j -! QT (m - 1) j) /\
+    (forall j, Qx 0 j = kO /\ QQ 0 j = kO /\ Q 0 j = kO /\ QT 0 j = kO) /\
+    (forall m j, m <= j -> Qx m j = kO) /\
+    (forall m j, m < j -> QT m j = kO) /\
+    (forall m, 1 <= m <= M ->
+       ST m (m - 1) = QId m *! khalf /\ ST m m = QId m *! khalf /\ forall j, j + 1 < m -> ST m j = kO) /\
+    (forall m, 1 <= m <= M -> delta m = nodes m -! nodes (m - 1)) /\
+    nodes 0 = kO.
+
+  Local Infix "+!" := kadd (at level 50, left associativity).
+  Notation V := (X -> K).
+
+  (* boris_matrix_form with the table hypotheses bundled *)
+  Theorem boris_matrix_form_tables M dt t0 nodes delta Q QQ Sm ST SQ Sx QId
+          (bf : K -> Fld -> V -> V -> A -> V) (ef : K -> V -> V -> A -> Fld)
+          (bs : V -> K -> Fld -> Fld -> V -> V -> A -> V) (attr : nat -> A) khalf G Qx QT
+          (p v : nat -> V) (f : nat -> Fld) tau :
+    boris_tables_ok M nodes delta Q QQ Sm ST SQ Sx QId khalf Qx QT ->
+    boris_contract kadd kmul bs khalf G -> build_f_is bf G -> (forall j, attr j = attr 0) -> tau_full M tau ->
+    exists r, boris_update kO kadd kmul ksub M dt t0 nodes delta Sm ST SQ Sx QId bf ef bs attr p v f tau = Some r /\
+    let pn := fst (fst r) in let vn := snd (fst r) in let fn := snd r in
+    let Fn := bforce kadd kmul M dt t0 nodes bf attr pn vn fn in
+    let Fo := bforce kadd kmul M dt t0 nodes bf attr p v f in
+    (forall j, j = 0 \/ M < j -> pn j = p j /\ vn j = v j /\ fn j = f j) /\
+    forall m, 1 <= m <= M ->
+      fn m = ef (tnode kadd kmul dt t0 nodes m) (pn m) (v m) (attr m) /\
+      forall x,
+        pn m x -! dt *! dt *! sumf kO kadd (fun j => Qx m j *! Fn j x) 0 m
+        = p 0 x +! dt *! nodes m *! v 0 x
+          +! dt *! dt *! sumf kO kadd (fun j => (QQ m j -! Qx m j) *! Fo j x) 0 (S M) +! tauV kO fst tau m x
+        /\
+        vn m x -! dt *! sumf kO kadd (fun j => QT m j *! Fn j x) 0 (S m)
+        = v 0 x +! dt *! sumf kO kadd (fun j => (Q m j -! QT m j) *! Fo j x) 0 (S M) +! tauV kO snd tau m x.
+  Proof.
+    intros [H1 [H2 [H3 [H4 [H5 [H6 [H7 [H8 [H9 H10]]]]]]]]].
+    exact (boris_matrix_form kO kI kadd kmul ksub kopp Rth M dt t0 nodes delta Q QQ Sm ST SQ Sx QId bf ef bs attr khalf G Qx QT
+             H1 H2 H3 H4 H5 H6 H7 H8 H9 H10 p v f tau).
+  Qed.
+End BorisTables.
+
+(* ================================================================ non-vacuity: a concrete instance over Qc *)
+From Coq Require Import ZArith QArith Qcanon Field.
+From PySDC Require Import Model.SweepExec Model.BorisExec.
+Section BorisInstance.
+  Local Open Scope Qc_scope.
+
+  Lemma Qc_sq_nonneg (x : Qc) : 0 <= x * x.
+  Proof.
+    unfold Qcle. cbn [this Qcmult Q2Qc]. rewrite !Qred_correct.
+    destruct x as [[n d] H]. cbn [this]. unfold Qle, Qmult. cbn [Qnum Qden]. nia.
+  Qed.
+
+  Lemma Qc_pos_plus_sq (k a b c : Qc) : 0 < k -> k + (a * a + b * b + c * c) <> 0.
+  Proof.
+    intros Hk H.
+    assert (H1 : 0 < k + (a * a + b * b + c * c)).
+    { apply Qclt_le_trans with (k + 0).
+      - rewrite Qcplus_0_r. exact Hk.
+      - apply Qcplus_le_compat; [apply Qcle_refl|].
+        pose proof (Qc_sq_nonneg a). pose proof (Qc_sq_nonneg b). pose proof (Qc_sq_nonneg c).
+        replace 0 with (0 + 0 + 0) by ring. repeat apply Qcplus_le_compat; assumption. }
+    rewrite H in H1. discriminate H1.
+  Qed.
+
+  Lemma two_eq : two = 1 + 1. Proof. apply Qc_is_canon. reflexivity. Qed.
+  Lemma half_eq : half = / (1 + 1). Proof. apply Qc_is_canon. reflexivity. Qed.
+
+  (* The Boris algorithm of PenningTrap_3D.boris_solver (Model/BorisExec.boris_alg, any number of particles, any fields,
+     charges, masses, step) SOLVES the contract equation: the trapezoidal rule with the Lorentz force, implicit in the
+     new velocity.  (1 + |t|^2 is never zero over the rationals.) *)
+  Theorem boris_alg_contract {P : Type} (c : P * ax -> Qc) d fo fn po vo ao x :
+    boris_alg c d fo fn po vo ao x
+    = vo x + c x + d * half * (lorentz fo vo ao x + lorentz fn (boris_alg c d fo fn po vo ao) ao x).
+  Proof.
+    destruct x as [n i]. unfold boris_alg, boris_alg_gen, lorentz, cross. rewrite two_eq, half_eq.
+    destruct fo as [eo bo], fn as [en bn]. cbn [fst snd nx].
+    set (a := qm ao n).
+    destruct i; cbn [nx]; field; (split; [intros H; discriminate H | apply Qc_pos_plus_sq; reflexivity]).
+  Qed.
+
+  (* hence the two problem-side hypotheses of boris_block_form / boris_matrix_form are satisfiable (non-trivially) *)
+  Example boris_contract_satisfiable {P : Type} :
+    boris_contract Qcplus Qcmult (@boris_alg P) half lorentz /\
+    build_f_is (fun (_ : Qc) fl (_ : P * ax -> Qc) ve a => lorentz fl ve a) lorentz.
+  Proof. split; [intros c a fo fn po vo ao x; apply boris_alg_contract | intros t fl po ve a; reflexivity]. Qed.
+
+  (* ... and so are the table hypotheses: M = 2, nodes 1/2, 1, QI = IE, QE = EE, tables as __get_Qd computes them *)
+  Definition exQ  := mat [[0; 0; 0]; [0; q 1 3; q 1 6]; [0; q 1 2; q 1 2]].
+  Definition exQQ := mat [[0; 0; 0]; [0; q 7 36; q 5 36]; [0; q 5 12; q 1 3]].
+  Definition exQT := mat [[0; 0; 0]; [q 1 4; q 1 4; 0]; [q 1 4; q 1 2; q 1 4]].
+  Definition exQx := mat [[0; 0; 0]; [q 1 8; 0; 0]; [q 1 4; q 1 4; 0]].
+  Definition exSm := mat [[0; 0; 0]; [0; q 1 3; q 1 6]; [0; q 1 6; q 1 3]].
+  Definition exSQ := mat [[0; 0; 0]; [0; q 7 36; q 5 36]; [0; q 2 9; q 7 36]].
+  Definition exST := mat [[0; 0; 0]; [q 1 4; q 1 4; 0]; [0; q 1 4; q 1 4]].
+  Definition exSx := mat [[0; 0; 0]; [q 1 8; 0; 0]; [q 1 8; q 1 4; 0]].
+  Definition exQId := nthq [0; q 1 2; q 1 2].
+  Definition exnodes := nthq [0; q 1 2; 1].
+  Definition exdelta := nthq [0; q 1 2; q 1 2].
+
+  Ltac qc_table := apply Qc_is_canon; vm_compute; reflexivity.
+  Ltac cases_m m H := assert (Hm' : m = 1%nat \/ m = 2%nat) by lia; clear H; destruct Hm' as [-> | ->].
+  Ltac cases_j j := destruct j as [|[|[|[|j]]]].
+
+  Example boris_tables_satisfiable :
+    boris_tables_ok 0 Qcmult Qcminus 2 exnodes exdelta exQ exQQ exSm exST exSQ exSx exQId half exQx exQT.
+  Proof.
+    unfold boris_tables_ok. repeat split.
+    1-4: intros m j H; cases_m m H; cases_j j; qc_table.
+    1-4: cases_j j; qc_table.
+    - intros m j H. destruct m as [|[|[|m]]]; cases_j j; try lia; try qc_table;
+        unfold exQx, mat, nthq; cbn [nth]; destruct m; reflexivity.
+    - intros m j H. destruct m as [|[|[|m]]]; cases_j j; try lia; try qc_table;
+        unfold exQT, mat, nthq; cbn [nth]; destruct m; reflexivity.
+    - cases_m m H; qc_table.
+    - cases_m m H; qc_table.
+    - intros j Hj. cases_m m H; cases_j j; try lia; qc_table.
+    - intros m H. cases_m m H; qc_table.
+  Qed.
+End BorisInstance.
